@@ -486,11 +486,14 @@ class Exec:
             if on == 'Mult':
                 return self.ok(SInt(a.t * b.t), st)
             if on in ('FloorDiv', 'Mod'):
-                f = py_floordiv if on == 'FloorDiv' else py_mod
                 if self.spec_mode is not None:
-                    return self.ok(SInt(f(a.t, b.t)), st)
-                return self.split(b.t == 0, st, lambda s: self.exc('ZeroDivisionError', s),
-                                  lambda s: self.ok(SInt(f(a.t, b.t)), s))
+                    q, r = self.divmod_terms(a.t, b.t, st)
+                    return self.ok(SInt(q if on == 'FloorDiv' else r), st)
+
+                def okdiv(s):
+                    q, r = self.divmod_terms(a.t, b.t, s)
+                    return self.ok(SInt(q if on == 'FloorDiv' else r), s)
+                return self.split(b.t == 0, st, lambda s: self.exc('ZeroDivisionError', s), okdiv)
             if on == 'Pow':
                 return self.C.int_pow(a, b, st)
             if on == 'Div':
@@ -569,6 +572,24 @@ class Exec:
         if isinstance(a, SAny) or isinstance(b, SAny):
             return self.C.any_compare(on, a, b, st, fr)
         raise Unsupported('compare %s on %r, %r' % (on, a, b))
+
+    def divmod_terms(self, a, b, st):
+        "Python floor division: a == b*q + r with r between 0 and b (A-int); b != 0 on this path"
+        bs = z3.simplify(b)
+        if z3.is_int_value(bs) and bs.as_long() != 0:
+            return py_floordiv(a, b), py_mod(a, b)
+        key = ('divmod', a.get_id(), b.get_id())
+        qr = st.ghost.get(key)
+        if qr is None:
+            q = fresh_int('q')
+            r = a - b * q
+            fact = z3.And(z3.Implies(b > 0, z3.And(r >= 0, r < b)), z3.Implies(b < 0, z3.And(r <= 0, r > b)))
+            st.assume(fact)
+            if self.spec_pre is not None:
+                self.spec_pre.assume(fact)
+            qr = (q, r)
+            st.ghost[key] = qr
+        return qr
 
     def intcmp(self, on, x, y):
         return {'Eq': lambda: x == y, 'NotEq': lambda: x != y, 'Lt': lambda: x < y, 'LtE': lambda: x <= y,
